@@ -280,8 +280,11 @@ pub fn run_plan<T: HCfg>(plan: &Value, detail: u8, emit: &mut dyn FnMut(&Value))
             for st in steps {
                 emit(&w.step(&st));
                 // fate of the packets this step sent
-                let sent: Vec<(u64, Addr, Addr, bool)> =
+                let mut sent: Vec<(u64, Addr, Addr, bool)> =
                     std::mem::take(&mut w.net.borrow_mut().tx_ids);
+                // the order in which a session serves its endpoints follows its hash maps; decide
+                // the fates in (destination, send order) so that a plan is reproducible
+                sent.sort_by_key(|(id, _from, to, _)| (*to, *id));
                 for (id, from, to, is_input) in sent {
                     // planned faults
                     let ia = {
